@@ -19,7 +19,7 @@ Answer: exactly the line `harness/dyn/src/run.rs::run_glr` prints for the real `
 * `err expected <pos>-<pos> <kinds>`, `panic <site>`, `timeout`.
 
 The request `cert` (no further fields) runs the certificate `Cert.glr` of `Model/GlrCert.lean` on the loaded
-table: `cert glr=<b> nul=<b> structuralRN=<b> symbols=<b> total=<b> layoutsafe=<none|cert|FAIL>`.
+table: `cert glr=<b> nul=<b> structuralRN=<b> symbols=<b> total=<b> layoutsafe=<none|cert|FAIL> completeRN=<b>`.
 -/
 namespace Rustemo.Glr
 open Rustemo
@@ -197,7 +197,7 @@ def handleCert (d : Dump) : String :=
   let layoutSafe := match t.layoutState with
     | none => "none"
     | some _ => if Cert.glrLayout g t then "cert" else "FAIL"
-  s!"cert glr={b01 (Cert.glr g t)} nul={b01 (Cert.nulOk g nul)} structuralRN={b01 (Cert.structuralRN g t (autosOf g t) nul)} symbols={b01 (Cert.symbolsOk g t)} total={b01 (Cert.total g t 0)} layoutsafe={layoutSafe}"
+  s!"cert glr={b01 (Cert.glr g t)} nul={b01 (Cert.nulOk g nul)} structuralRN={b01 (Cert.structuralRN g t (autosOf g t) nul)} symbols={b01 (Cert.symbolsOk g t)} total={b01 (Cert.total g t 0)} layoutsafe={layoutSafe} completeRN={b01 (Cert.completeRN g t)}"
 
 def handleGlr (d : Dump) (args : String) : String :=
   if args.trimAscii.toString == "cert" then handleCert d else
